@@ -61,7 +61,7 @@ func (Prop) Assumptions() []string {
 }
 
 var opKinds = []string{"create", "create", "create_full", "create_batches", "update_birthday", "first", "find", "preload", "preload_all", "joins", "update", "updates", "delete", "delete_pet", "tx", "tx_fail", "assoc_append", "assoc_find", "assoc_count", "note", "note_find", "count", "save", "gadget", "gadget", "dry_gadget", "dry_gadget", "dry_create", "dry_update", "dry_find", "dry_delete",
-	"assoc_replace", "assoc_clear", "assoc_delete", "assoc_replace_account", "assoc_delete_company", "assoc_replace_langs", "cond_dry", "preload_nested", "club_first"}
+	"assoc_replace", "assoc_clear", "assoc_delete", "assoc_replace_account", "assoc_delete_company", "assoc_replace_langs", "cond_dry", "preload_nested", "club_first", "cond_setting"}
 
 func (Prop) Gen(r *core.Rand, tier string) interface{} {
 	g := 2 + r.Intn(3)
@@ -142,7 +142,7 @@ func (Prop) Gen(r *core.Rand, tier string) interface{} {
 	if r.Chance(12) {
 		// conditioned-handle scenario: every task builds statements from one shared handle that carries conditions
 		for t := range c.Tasks {
-			c.Tasks[t] = append([]Op{{Kind: "cond_dry", X: t}, {Kind: "cond_dry", X: t + 1}}, c.Tasks[t]...)
+			c.Tasks[t] = append([]Op{{Kind: "cond_dry", X: t}, {Kind: "cond_setting", X: t}, {Kind: "cond_dry", X: t + 1}, {Kind: "cond_setting", X: t + 1}}, c.Tasks[t]...)
 		}
 	}
 	if r.Chance(12) {
@@ -310,8 +310,14 @@ func drySQL(tx *gorm.DB) string {
 // SQL over the handle's own clause values.
 var condHandle *gorm.DB
 
+const settingKey = "verif:tenant"
+
+// setHandle is a shared handle that carries a setting (and nothing else).
+var setHandle *gorm.DB
+
 func mkCond(db *gorm.DB) *gorm.DB {
 	// (a pagination base: model, conditions and an order; Count is called on it directly)
+	setHandle = db.Set(settingKey, "handle").Session(&gorm.Session{})
 	return db.Model(&fam.Note{}).Or("rank = ?", -7).Where("body <> ?", "nobody").Where("rank >= ?", 0).Order("id").Session(&gorm.Session{})
 }
 
@@ -507,6 +513,14 @@ func runOp(db *gorm.DB, t int, op Op) string {
 			tx = h.Count(&n)
 		}
 		return out(tx, drySQL(tx))
+	case "cond_setting":
+		// a setting of its own on a chain from the shared handle (which carries one under
+		// the same key), a statement, then the setting as the chain and the handle see it
+		var ns []fam.Note
+		tx := setHandle.Set(settingKey, fmt.Sprintf("task%d-%d", t, op.X)).Where("id = ?", -1).Find(&ns) // no such row: the result does not depend on what other tasks store
+		mine, _ := tx.Get(settingKey)
+		base, _ := setHandle.Get(settingKey)
+		return out(tx, fmt.Sprintf("n=%d mine=%v handle=%v", len(ns), mine, base))
 	case "note":
 		n := &fam.Note{ID: id + 80 + uint(op.X%10), Body: "note", Rank: op.X, Tag: fam.Sealed(fmt.Sprintf("tag-%d-%d", t, op.X))}
 		return out(db.Create(n), fmt.Sprint(n.ID))
